@@ -572,7 +572,20 @@ pub fn run_c06(ctx: &Ctx, sink: &mut Sink) {
         }
         let mut r = Rng::derive(ctx.seed, "c06", i);
         let depth = r.below(6);
-        let v0 = gens::random_data(&mut r, depth, true);
+        let v0 = if i % 97 < 6 {
+            // neighbours that differ in the sign of a zero only (equal under ==, different doubles)
+            let z = |neg: bool| RVal::num(if neg { -0.0 } else { 0.0 });
+            let wrap = |v: RVal, k: u64| match k {
+                0 => v,
+                1 => RVal::List(vec![v]),
+                2 => RVal::Rec(vec![("a".to_string(), RVal::List(vec![v]))]),
+                _ => RVal::List(vec![RVal::num(1.0), RVal::Rec(vec![("a".to_string(), v)])]),
+            };
+            let k = (i % 97) % 4;
+            RVal::List(vec![wrap(z(false), k), wrap(z(true), k), wrap(z(false), k), wrap(z(true), k), wrap(z(true), k)])
+        } else {
+            gens::random_data(&mut r, depth, true)
+        };
         let sess = Sess::new();
         // one case in five shares sub-structure: the same heap list / record / string is reached several times inside the
         // value (values built by a program are DAGs, not trees)
